@@ -9,8 +9,13 @@ Op lines (one case = `init`, then any number of `ls` / `probe` / `put`):
   ls                                            → <logical>=<tok> ... (sorted by logical path) | %e
   probe a,b,c                                   → a=s401,b=pass,c=pass
   put ep=configuration|apply_flows m=PUT|GET|POST body=items|badjson|null items=<l>:<tok>,... |%e
-      fault=none|backup|save:<l>|rread|rstore:<l>|haproxy:<r>|clean:<g|um> gate=0|1 corder=g,um|um,g probes=a,b
-                                                → status=<n> phase=<p> mid=<vec>;<vec> | mid=%e
+      fault=none|backup|save:<l>|rread|rstore:<l>|haproxy:<r>|clean:<g|um> gate=0|1 corder=g,um|um,g
+      [rpos=first|last] probes=a,b              → status=<n> phase=<p> mid=<vec>;<vec> | mid=%e
+
+`rpos` (default first) says where Go's map iteration puts the path of an `rstore:` fault among the
+files `Restore()` writes back: first (nothing else restored) or last (everything else restored).
+The judge evaluates the Spec only for fault plans without a fault inside the restore
+(`Step.inRestore`): after such a request the rest of the case is outside the theorems' hypotheses.
 
 Logical paths: f/<name> q/<name> p/<name> (name = [a-z0-9]+.yaml), g, um, dm.
 Tokens: flows v<k> valid, quotas q<k> valid, path params anything, gateway g<k>|empty valid,
@@ -63,10 +68,17 @@ def envMetricsOk (d : Disk) : Bool :=
 def envHasEndpoints (d : Disk) : Bool :=
   d.any fun e => match e.1 with | .flow _ | .quota _ => true | _ => false
 
-def mkEnv (fault : Option Step) (corder : List Path) : Env :=
+/-- Map order of `Restore()`: the faulted path first or last, the others in list order. -/
+def restoreOrderOf (fault : Option Step) (first : Bool) (L : List Path) : List Path :=
+  match fault with
+  | some (.restoreStore x) =>
+    if first then L.filter (· == x) ++ L.filter (· != x) else L.filter (· != x) ++ L.filter (· == x)
+  | _ => L
+
+def mkEnv (fault : Option Step) (corder : List Path) (rfirst : Bool := true) : Env :=
   { plan := fun s => match fault with | some f => decide (s = f) | none => false,
     validates := envValidates, metricsOk := envMetricsOk, hasEndpoints := envHasEndpoints,
-    cleanOrder := corder }
+    cleanOrder := corder, restoreOrder := restoreOrderOf fault rfirst }
 
 def fmtDisk (d : Disk) : String :=
   let ws := (d.map fun e => (fmtPath e.1, e.2)).toArray.qsort (fun a b => a.1 < b.1)
@@ -89,11 +101,11 @@ def fmtProbe (names : List String) (e : Engine) : String :=
   ",".intercalate (names.map fun n => n ++ "=" ++ verdict (e.probe (.flow (n ++ ".yaml"))))
 
 def fmtPhase : Phase → String
-  | .decode => "decode" | .nodata => "nodata" | .backup => "backup" | .parse => "parse"
+  | .method => "method" | .decode => "decode" | .nodata => "nodata" | .backup => "backup" | .parse => "parse"
   | .cleanup => "cleanup" | .save => "save" | .reload => "reload" | .ok => "ok"
 
 def parsePhase (s : String) : Option Phase :=
-  [Phase.decode, .nodata, .backup, .parse, .cleanup, .save, .reload, .ok].find? (fun p => fmtPhase p == s)
+  [Phase.method, .decode, .nodata, .backup, .parse, .cleanup, .save, .reload, .ok].find? (fun p => fmtPhase p == s)
 
 def rank : Path → Nat
   | .flow _ => 0 | .quota _ => 1 | .pparam _ => 2 | .gateway => 3 | .userMetrics => 4 | .defaultMetrics => 5
@@ -144,6 +156,7 @@ structure Put where
   req : Req
   fault : Option Step
   corder : List Path
+  rfirst : Bool
   probes : List String
 
 def parsePut (ws : List String) : Option Put := do
@@ -165,9 +178,14 @@ def parsePut (ws : List String) : Option Put := do
     | some "g,um" => some [Path.gateway, Path.userMetrics]
     | some "um,g" => some [Path.userMetrics, Path.gateway]
     | _ => none
+  let rfirst ← match kv ws "rpos" with
+    | none => some true
+    | some "first" => some true
+    | some "last" => some false
+    | _ => none
   let probes ← kv ws "probes"
   pure { req := { ep := ep, methodPut := m == "PUT", body := body, gate := gate },
-         fault := fault, corder := corder, probes := probeNames probes }
+         fault := fault, corder := corder, rfirst := rfirst, probes := probeNames probes }
 
 def parseEntries (ws : List String) : Option Disk :=
   ws.foldlM (init := ([] : Disk)) fun d w =>
@@ -181,14 +199,13 @@ def parseEntries (ws : List String) : Option Disk :=
 structure RunSt where
   st : State := ⟨[], .uninit⟩
   live : Bool := false
-  fixed : Bool := false   -- `run-fixed`: the model of the PROPOSED fix (for checking a patched tree)
 
 def fmtMid (names : List String) (mid : List Engine) : String :=
   if mid.isEmpty then "%e" else ";".intercalate (mid.map (fmtProbe names))
 
 def runStep (s : RunSt) (line : String) : RunSt × String :=
   match words line with
-  | ["case", id] => ({ fixed := s.fixed }, s!"case {id}")
+  | ["case", id] => ({}, s!"case {id}")
   | "init" :: ws =>
     match parseEntries ws with
     | none => ({ s with live := false }, "bad-op")
@@ -203,11 +220,7 @@ def runStep (s : RunSt) (line : String) : RunSt × String :=
     | none => (s, "bad-op")
     | some p =>
       if !s.live then (s, "skip") else
-      let r := if s.fixed then
-                 (match p.req.ep with
-                  | .configuration => handleConfigurationFixed (mkEnv p.fault p.corder) s.st p.req
-                  | .applyFlows => handleApplyFlowsFixed (mkEnv p.fault p.corder) s.st p.req)
-               else handle (mkEnv p.fault p.corder) s.st p.req
+      let r := handle (mkEnv p.fault p.corder p.rfirst) s.st p.req
       ({ s with st := r.state },
        s!"status={r.status} phase={fmtPhase r.phase} mid={fmtMid p.probes r.mid}")
   | _ => (s, "bad-op")
@@ -280,6 +293,8 @@ def judgeStep (s : JudgeSt) (op out : String) : JudgeSt :=
     match parsePut ws with
     | none => { s with bad := some "unparsable-put" }
     | some p =>
+      -- a fault inside the restore: outside the hypotheses (double fault); nothing to judge from here on
+      if (match p.fault with | some f => f.inRestore | none => false) then { s with dead := true, pending := none } else
       let ows := words out
       match kvNat ows "status", (kv ows "phase").bind parsePhase, kv ows "mid", s.lastLs, s.lastProbe with
       | some st, some ph, some mid, some b, some pb =>
@@ -299,6 +314,5 @@ def judgeFinish (s : JudgeSt) : String :=
 def main (args : List String) : IO Unit :=
   match args with
   | ["run"] => runLoop runStep {}
-  | ["run-fixed"] => runLoop runStep { fixed := true }
   | ["judge"] => judgeLoop ({} : JudgeSt) judgeStep judgeFinish
-  | _ => IO.eprintln "usage: lvdriver_c08 run|run-fixed|judge"
+  | _ => IO.eprintln "usage: lvdriver_c08 run|judge"
